@@ -1,5 +1,6 @@
 import TD.C18.Stream
 import TD.C18.Rle
+import TD.C18.RleDoc
 
 /-!
 # C18 — generated XML/XHTML/SVG is well-formed and carries the data unchanged
@@ -161,6 +162,16 @@ specification accepts that form.  Float X axes are outside this theorem: oracle 
 theorem rle_xml_roundtrip (hex : Bool) (xs : List Int) :
     expand ((rleCreate xs).map (rleAttrs hex)) = some xs :=
   expand_rleCreate hex xs
+
+/-- **The RLE element of the XML index is well-formed**: the calls `xml_rle_write` makes for any integer list (any
+element name that is an XML Name, both notations) satisfy the hypotheses of `stream_wellformed`. -/
+theorem rle_document_wellformed (hex : Bool) (elem : Str) (helem : validName elem = true) (xs : List Int) (doc : Str)
+    (hdoc : document .xml "utf-8".toList (rleOps hex elem (rleCreate xs)) = .ok doc) :
+    wellFormed doc = true :=
+  stream_wellformed _ doc hdoc (rleOps_ok hex elem helem _) (rleOps_shape hex elem _)
+
+example : (document .xml "utf-8".toList (rleOps true "LRSH".toList (rleCreate [80, 128, 176, 300]))).toOption.map wellFormed = some true := by
+  decide
 
 example : (rleCreate [1, 2, 3, 7, 5, 3, 1]).map (fun it => (it.datum, it.stride, it.repeat_)) = [(1, 1, 2), (7, -2, 3)] := by decide
 example : (rleCreate [80, 128, 176, 300]).map (rleAttrs true) =
